@@ -261,7 +261,19 @@ func runC14(c *Ctx) {
 			c.fail("C14.R2", key, "a return is reachable from the checksum-mismatch branch before the loop continues: enumeration stops at a bad table", ge.where(p, 10)...)
 			continue
 		}
-		isLog := func(n int) bool { return m.callsTo(ge.Ins[n], fprintf) }
+		// a report: kfmt.Fprintf, or a call of a function (literal) that reports on
+		// every path through it
+		isLog := func(n int) bool {
+			if m.callsTo(ge.Ins[n], fprintf) {
+				return true
+			}
+			if cc := callCommon(ge.Ins[n]); cc != nil {
+				if cal := m.callee(cc); cal != nil && cal != fprintf {
+					return m.alwaysCalls(cal, fprintf, 0)
+				}
+			}
+			return false
+		}
 		if p := ge.Path([]int{start}, nil, isLog, func(n int) bool { return n == h }); p != nil {
 			c.fail("C14.R2", key, "the loop continues from the checksum-mismatch branch without reporting the table on the log", ge.where(p, 10)...)
 			continue
